@@ -2,7 +2,8 @@ import Pendulum.Proofs.ZoneOps
 import Pendulum.Model.DTOps
 import Pendulum.Proofs.AddDur
 import Pendulum.Proofs.AddDurGen
-import Pendulum.Proofs.DTArithGen
+import Pendulum.Proofs.DTArithGenAdd
+import Pendulum.Proofs.DTArithGenOps
 import Pendulum.Props.C01
 /-! # C03 — adding fixed-length units moves the instant by exactly that elapsed time -/
 namespace Pendulum.Props.C03
